@@ -115,6 +115,7 @@ def corpus():
           mk_profile(ONE * 2, (1.0, -1.0), (1.0, 5.0), 5, None, None, ("y", "x"), ["u", "v"], "corpus-profile-vertical"),
           mk_profile(ONE, (-2.0, 1.0), (4.0, 3.0), 7, ["sinh", [4.0]], None, None, None, "corpus-profile"),
           mk_profile(ONE, (1.5, -2.0), (1.5, -2.0), 4, None, None, None, None, "corpus-profile-zero-length"),
+          mk_profile([[1.0, 2e-5, -3e-6, 0.0]], (412000.0, 4100000.0), (498000.0, 4163000.0), 5, None, None, None, None, "profile-utm-int"),
           mk_scatter(ONE, [0.0, 4.0, 0.0, 2.0], None, 5, 0, None, None, None, None, "corpus-scatter")]
     for k, which in enumerate(FITTED):
         cs.append(mk_fitted(which, 11 + k, (3, 4), None, "fitted-" + which))
@@ -192,6 +193,11 @@ def generate(rng, tier):
             if rng.random() < 0.25:
                 pr = ["sinh", [rng.choice([2.0, 4.0, 16.0])]]
             cs.append(mk_profile(coefs, p1, p2, size, pr, extra, dims, names, "profile"))
+            if rng.random() < 0.15:
+                # end points read from a table of integer UTM metres (int32): tens of kilometres apart
+                u1 = (float(rng.randint(300000, 700000)), float(rng.randint(4000000, 4400000)))
+                u2 = (float(rng.randint(300000, 700000)), float(rng.randint(4000000, 4400000)))
+                cs.append(mk_profile([[c_[0], c_[1] / 1e5, c_[2] / 1e6, 0.0] for c_ in coefs], u1, u2, rng.randint(2, 9), None, extra, dims, names, "profile-utm-int"))
         else:
             extra = None if rng.random() < 0.7 else [rng.randint(-8, 8) / 2.0]
             rdef, region = (reg, None) if rng.random() < 0.5 else (None, reg)
@@ -387,6 +393,8 @@ def impl(case):
             if dims is not None and len(case["op"]) % 2:
                 g.dims = tuple(dims)
                 call_dims = None
+            if case["kind"].startswith("profile-utm-int"):
+                p1, p2 = np.array(p1).astype("int32"), np.array(p2).astype("int32")
             r = C.call(g.profile, p1, p2, size, dims=call_dims, data_names=names, projection=proj_fn(proj, True), **kw)
             if C.is_err(r):
                 return r
